@@ -2,7 +2,7 @@
 from ..model import AnalysisError
 from ..terms import SELF, FAC, NONE, show, is_const, mentions
 from ..catalogue import catalogue, is_effect
-from .common import where, cls_short, contexts, honoured, capabilities, types, short, written_object
+from .common import fresh_encoding, where, cls_short, contexts, honoured, capabilities, types, short, written_object
 from .flows import post_dispatch, ack_cells, net_msgid, documented_deliver_order, rule_lookup
 
 EXPLANATION = (
@@ -155,7 +155,7 @@ def check(ctx):
                 enc = [e for e in evs if e.kind == "ENCODE" and e.a["ok"] and e.a["obj"] == obj]
                 mid = enc[-1].a["fields"].get("msgId") if enc else None
                 ctx.ob("P3", "%s %s echoes the received identifier" % (cq, cl[0] if cl else "?"),
-                       how == "encres" and net_msgid(mid) and mid[1] == resp, where=where(we), function=we.func,
+                       fresh_encoding(we, evs) and net_msgid(mid) and mid[1] == resp, where=where(we), function=we.func,
                        construct="%s/reply-id/%s" % (we.func, cl[0] if cl else "?"),
                        msg="reply written with msgId %s; the PUBLISH carried %s" % (show(mid), show(("net", resp, "msgId"))))
             # P4: delivery arguments
@@ -194,7 +194,7 @@ def check(ctx):
                 enc = [e for e in evs if e.kind == "ENCODE" and e.a["ok"] and e.a["obj"] == obj]
                 mid = enc[-1].a["fields"].get("msgId") if enc else None
                 ctx.ob("P3", "%s %s echoes the received identifier" % (cq, cl[0] if cl else "?"),
-                       how == "encres" and net_msgid(mid) and mid[1] == resp, where=where(we), function=we.func,
+                       fresh_encoding(we, evs) and net_msgid(mid) and mid[1] == resp, where=where(we), function=we.func,
                        construct="%s/reply-id/%s" % (we.func, cl[0] if cl else "?"),
                        msg="reply written with msgId %s; the PUBREL carried %s" % (show(mid), show(("net", resp, "msgId"))))
             hs = handler_set(tr)
